@@ -631,3 +631,68 @@ Example ex_attach_panics :
   call_panics (mkCall 1 16777200 16777231) = true /\ call_panics (mkCall 1 16777200 16777215) = false /\
   alignedb (mkCall 1 0 4294967295) = true /\ call_panics (mkCall 1 32 15) = false.
 Proof. vm_compute. repeat split; reflexivity. Qed.
+
+(* ================================================================== Part 9 *)
+(* EaRead24_wrap (the third read path of the bus: 24-bit pointers and operands of the primary CPU).
+   [r24_addr a k] is the address of byte k: same bank byte, offset + k in 16 bits. *)
+
+(* fails loudly, and BEFORE any memory is touched (the state is the one it was given), as soon as one of
+   its three addresses was never attached *)
+Theorem read24_unattached_loud : forall W rt a st,
+  seg_at rt (r24_addr a 0) = None \/ seg_at rt (r24_addr a 1) = None \/ seg_at rt (r24_addr a 2) = None ->
+  ea_read24_wrap W rt a st = Panic st.
+Proof.
+  intros W rt a st H. unfold ea_read24_wrap. cbv zeta.
+  destruct (seg_at rt (r24_addr a 0)) as [m0|]; [|reflexivity].
+  destruct (seg_at rt (r24_addr a 1)) as [m1|]; [|reflexivity].
+  destruct (seg_at rt (r24_addr a 2)) as [m2|]; [|reflexivity].
+  destruct H as [H|[H|H]]; discriminate H.
+Qed.
+
+(* otherwise it is exactly three single EaReads, in the order low, middle, high, little-endian *)
+Theorem read24_three_reads : forall W rt a st ll mm hh s0 s1 s2,
+  ea_read W rt (r24_addr a 0) st = Ok ll s0 ->
+  ea_read W rt (r24_addr a 1) s0 = Ok mm s1 ->
+  ea_read W rt (r24_addr a 2) s1 = Ok hh s2 ->
+  ea_read24_wrap W rt a st = Ok (Z.lor (Z.lor (Z.shiftl hh 16) (Z.shiftl mm 8)) ll) s2.
+Proof.
+  intros W rt a st ll mm hh s0 s1 s2 H0 H1 H2. unfold ea_read24_wrap, ea_read in *. cbv zeta.
+  destruct (seg_at rt (r24_addr a 0)) as [m0|]; [|discriminate H0].
+  destruct (seg_at rt (r24_addr a 1)) as [m1|]; [|discriminate H1].
+  destruct (seg_at rt (r24_addr a 2)) as [m2|]; [|discriminate H2].
+  rewrite H0; cbv beta iota. rewrite H1; cbv beta iota. rewrite H2; cbv beta iota. reflexivity.
+Qed.
+
+(* conversely a successful 24-bit read decomposes into three successful single reads *)
+Theorem read24_ok_inv : forall W rt a st v s2,
+  ea_read24_wrap W rt a st = Ok v s2 ->
+  exists ll mm hh s0 s1,
+    ea_read W rt (r24_addr a 0) st = Ok ll s0 /\
+    ea_read W rt (r24_addr a 1) s0 = Ok mm s1 /\
+    ea_read W rt (r24_addr a 2) s1 = Ok hh s2 /\
+    v = Z.lor (Z.lor (Z.shiftl hh 16) (Z.shiftl mm 8)) ll.
+Proof.
+  intros W rt a st v s2 H. unfold ea_read24_wrap, ea_read in *. cbv zeta in H.
+  destruct (seg_at rt (r24_addr a 0)) as [m0|]; [|discriminate H].
+  destruct (seg_at rt (r24_addr a 1)) as [m1|]; [|discriminate H].
+  destruct (seg_at rt (r24_addr a 2)) as [m2|]; [|discriminate H].
+  destruct (mem_read W m0 (r24_addr a 0) st) as [ll s0|s0] eqn:E0; [|discriminate H].
+  destruct (mem_read W m1 (r24_addr a 1) s0) as [mm s1|s1] eqn:E1; [|discriminate H].
+  destruct (mem_read W m2 (r24_addr a 2) s1) as [hh s2'|s2'] eqn:E2; [|discriminate H].
+  inversion H; subst. exists ll, mm, hh, s0, s1. repeat split; (reflexivity || assumption).
+Qed.
+
+(* the offset wraps inside the bank: the byte after $7E:FFFF is $7E:0000, not $7F:0000 *)
+Example read24_wraps_in_bank :
+  map (r24_addr 8454143) [0; 1; 2] = [8454143; 8388608; 8388609] /\
+  map (r24_addr 16777214) [0; 1; 2] = [16777214; 16777215; 16711680].
+Proof. vm_compute. split; reflexivity. Qed.
+(* non-vacuity: a read straddling two memories and the bank end; a read into a hole fails with nothing logged *)
+Example read24_example :
+  let W := world_of [] in
+  let rt := run_calls empty_rt [mkCall 1 8454128 8454143; mkCall 2 8388608 8388623] in
+  (exists st', ea_read24_wrap W rt 8454143 (mkState [] []) =
+     Ok (Z.lor (Z.lor (Z.shiftl (rec_val 2 8388609) 16) (Z.shiftl (rec_val 2 8388608) 8)) (rec_val 1 8454143)) st' /\
+     rev (log st') = [(1, 0, 8454143, 0); (2, 0, 8388608, 0); (2, 0, 8388609, 0)]) /\
+  ea_read24_wrap W rt 8388622 (mkState [] []) = Panic (mkState [] []).
+Proof. cbv zeta. split; [eexists; split; vm_compute; reflexivity|vm_compute; reflexivity]. Qed.
